@@ -119,4 +119,11 @@ def explore(ctx):
         'percentile_cases': sum(1 for c in cases if 'pct' in c.tags),
         'model_vs_impl_disagreements': sum(1 for r in results if r['corr']),
     }
+    # the same on a live terminal, where a downstream aggregation is re-fed on every refresh: groups of an earlier
+    # refresh whose key no longer occurs must not survive (one row per key among the rows that REACH the stage)
+    from props import c16
+    live = c16.run_live(ctx, c16.MOVING[:2], 6 if quick else 80)
+    failures += live['failures']
+    cov['live_terminal_cases'] = live['coverage']['evaluations']
+    cov['evaluations'] += live['coverage']['evaluations']
     return {'coverage': cov, 'failures': failures}
